@@ -1,6 +1,6 @@
 (* PV.C05.Examples — non-vacuity: concrete non-trivial instances of every hypothesis / guard. *)
 From Coq Require Import QArith ZArith NArith List Bool PArith Arith Permutation.
-From PV Require Import Base.PyData Base.Expr Base.Interp C05.Model C05.ToCs C05.Proofs C05.Refuted.
+From PV Require Import Base.PyData Base.Expr Base.Interp C05.Model C05.ToCs C05.Access C05.Proofs C05.Refuted.
 Import ListNotations.
 Local Open Scope nat_scope.
 
@@ -150,4 +150,15 @@ Example ex_rest_equations :
   map (fun a => (map t_pos (out_term g a), map t_pos (input_terms g a))) [0; 1; 2]
   = [([false], []); ([], [true]); ([false], [])] /\
   map (fun l => map t_pos l) (fold_left (nstep (terms_of g)) (triples (terms_of g)) (terms_of g)) = [[false]; [true]; [false]].
+Proof. repeat split; vm_compute; reflexivity. Qed.
+
+(* flow accessors on the example system: CENTRAL (order index 1) has 2 outflows (PERI, output), 3 inflows
+   (PERI, AA, DEPOT in node order), one bidirectional partner, 3 connected compartments; 4 compartments *)
+Example ex_access :
+  let c := Cmt (nthc (order ex_g) 1) in
+  let nm := fun n => match n with Cmt x => Some (c_name x) | Out => None end in
+  memc (nthc (order ex_g) 1) (comps ex_g) = true /\
+  map (fun e => nm (fst e)) (outflows ex_g c) = [Some n_PERI; None] /\
+  map (fun e => nm (fst e)) (inflows ex_g c) = [Some n_PERI; Some n_AA; Some n_DEPOT] /\
+  map nm (bidirectionals ex_g c) = [Some n_PERI] /\ n_connected ex_g c = 3 /\ cs_len ex_g = 4.
 Proof. repeat split; vm_compute; reflexivity. Qed.
